@@ -13,17 +13,43 @@ fn occ_events(log: &mut Log, b: &Vec<u8>, alphabet: &Alphabet, syms: &Vec<u8>, k
     let n = b.len();
     for &k in ks {
         let ku = k as usize;
-        log.call("occ", json!({"bwt": bytes(b), "k": k, "syms": bytes(syms)}), || {
+        // 0: the table as built; 1: clone(); 2: clone_from() into an Occ that was built for ANOTHER string
+        // and rate and has answered already -- copy (tab) and original (tab0) are both asked for every row
+        let mode = (n + ku) % 3;
+        log.call("occ", json!({"bwt": bytes(b), "k": k, "syms": bytes(syms), "clone": mode}), || {
             let occ = Occ::new(b, k, alphabet);
-            let tab: Vec<Value> = syms
-                .iter()
-                .map(|&c| {
-                    let row: Vec<usize> = (0..b.len()).map(|r| occ.get(b, r, c)).collect();
-                    usizes(&row)
-                })
-                .collect();
-            json!({ "tab": tab })
+            let table = |o: &Occ| -> Vec<Value> {
+                syms.iter()
+                    .map(|&c| {
+                        let row: Vec<usize> = (0..b.len()).map(|r| o.get(b, r, c)).collect();
+                        usizes(&row)
+                    })
+                    .collect()
+            };
+            match mode {
+                0 => json!({ "tab": table(&occ) }),
+                1 => {
+                    let copy = occ.clone();
+                    json!({ "tab": table(&copy), "tab0": table(&occ) })
+                }
+                _ => {
+                    let other: Vec<u8> = b.iter().rev().cloned().chain(b.iter().cloned()).collect();
+                    let mut used = Occ::new(&other, k + 3, alphabet);
+                    let _ = used.get(&other, other.len() - 1, syms[0]);
+                    used.clone_from(&occ);
+                    json!({ "tab": table(&used), "tab0": table(&occ) })
+                }
+            }
         });
+        if mode == 1 {
+            log.oblige("clone_occ_both_continue");
+        }
+        if mode == 2 {
+            log.oblige("clone_from_occ_other_text_both_continue");
+        }
+        if k == 1 {
+            log.oblige("occ_rate_1");
+        }
         // boundary regions reached by the full table (arithmetic on n, k only)
         if ku > 1 && n >= ku {
             log.oblige("row_on_checkpoint_and_before");
@@ -84,6 +110,12 @@ fn run_one(log: &mut Log, tag: &str, text: &[u8], alpha: &[u8], ks: &[u32]) {
     let single = text.iter().filter(|&&c| c == sent).count() == 1;
     if !log.begin(tag, json!({"text": bytes(text), "alpha": bytes(alpha), "single": single as u8})) {
         return;
+    }
+    if n == 1 {
+        log.oblige("text_len_1");
+    }
+    if n == 2 {
+        log.oblige("text_len_2");
     }
     let mut sa: Vec<usize> = vec![];
     let r = log.call("sa", json!({}), || {
